@@ -48,6 +48,9 @@ CLAIMED = {
     "C12": dict(level="exploration", ref="4/C12", technique="TLA+ trace validation (RenderTrace: exact comparison of the recompiled linear model by sign and bit pattern, fixed point of the rendering) of Model::to_string / LinearModel::to_string through the whole real front end",
                 text="Models of the corpus-K families (rendered to source first, a third again with magnitudes 1e-9..1e9) and the program corpus are compiled; both renderings are fed back through parser, type checker, transformer and linearizer; RenderTrace.tla compares variables, domains, objective, offset, sense and the multiset of rows exactly and the second rendering with the first. Three degenerate shapes that cannot survive a text round trip literally are classified by the specification and listed as known findings.",
                 note="sampled families, not exhaustive; differences explained by the three KNOWN-SHAPE classes are reported as known findings, any other difference is a violation"),
+    "C03": dict(level="exploration", ref="4/C03", technique="TLA+ trace validation (E2ETrace: reference interpreter Sem!Eval with complete enumeration of the declared domains) of RoocSolver + auto_solver on programs rendered from TLC-generated abstract models",
+                text="Abstract models from the generator machine (family G exhaustive, H simulated) over integer and Boolean domains are rendered to source text with minimal parentheses in two spellings and solved through the one-shot entry point; E2ETrace.tla decides satisfiability, feasibility of the returned values, the reported objective and optimality by enumerating every assignment of the declared domains.",
+                note="integer and Boolean domains only (bounded reals are covered compositionally by C01/C02/C05); the renderer is part of the driver"),
 }
 NOT_YET = {}
 ALL = [f"C{i:02d}" for i in range(1, 21)]
